@@ -270,3 +270,46 @@ func VerifC06_q_reserveOfSeveralSubnets() {
 	}
 	verifAssert("C06/reserve-agree", w.agree(), "memory and store disagree")
 }
+
+// BOUND: topology 0 loaded through updateConfigMap; 0..1 pods bound; the configuration changes so that the node network 10.0.1.0/24 of the pool is split into 10.0.1.0/25 and 10.0.1.128/25 (nodes n1, n5 are in the lower half; addresses, gateway, VLAN unchanged); the reload (updateConfigMap) runs while, as a second logical thread inside any one window right before/after one of its API-server / store / IPAM calls (symbolic window 0..8), a Filter of a pending pod over n1, n5, n3 is in flight (its answer is discarded: the scheduler retries); interleavings in which the Filter would have to wait for the table lock are discarded. After the reload a fresh default-policy pod must be offered n1 and n5 (free routable addresses exist) and Bind on an offered node must succeed
+func VerifC06_q_reloadVsFilter() {
+	w := vpNewWorld(0, false)
+	text0, _ := vpConfig(0, 0)
+	w.configMap = text0
+	if _, err := w.plugin.updateConfigMap(); err != nil {
+		return
+	}
+	floatingip.VerifRotate(w.innerIPAM())
+	w.wrapIPAM() // windows also right before / after every IPAM call (the reload's ConfigurePool among them)
+	w.setStatefulSet(3)
+	if nondetBool() {
+		w.scheduleSts(0)
+	}
+	name := vpPodNameOf(vpKindSts, 1)
+	w.createPod(vpMakePod(name, "U"+name, vpKindSts, "", "", ""))
+	w.syncListers()
+	text1 := strings.Replace(text0, `"10.0.1.0/24"`, `"10.0.1.0/25","10.0.1.128/25"`, 1)
+	if text1 == text0 {
+		verifAssert("C06/reload-text-changes?", false, "the harness could not split the node network in the configuration text")
+		return
+	}
+	w.interferer = func() { _, _ = w.filter(name, "n1", "n5", "n3") }
+	w.windowAt = nondetInt(0, 8)
+	w.configMap = text1
+	_, err := w.plugin.updateConfigMap()
+	w.finishInterference()
+	w.interferer = nil
+	if err != nil {
+		return
+	}
+	floatingip.VerifRotate(w.innerIPAM())
+	verifReach("reloaded-with-split-node-network")
+	nodes, ferr := w.filter(name, "n1", "n5", "n3")
+	verifAssert("C06/offered-after-node-subnet-change", ferr == nil && vpHas(nodes, "n1") && vpHas(nodes, "n5"), "after a reload that changed a node's subnet a fresh pod is not offered a node although free routable addresses exist")
+	if ferr != nil || len(nodes) == 0 {
+		return
+	}
+	node := nodes[nondetChoice(len(nodes))]
+	berr := w.bind(name, node)
+	verifAssert("C06/bind-after-node-subnet-change", berr == nil, "Bind failed on a node Filter approved after a reload that changed the node's subnet")
+}
